@@ -6,7 +6,7 @@
 
    pattern_filter(dirpath, dirname, entries) =
      not any(regex.match(relpath(abspath(join(dirpath, dirname)), abspath(root_path))))
-   with regex = re.compile(fnmatch.translate(pattern.decode()).encode()).
+   with regex = re.compile(os.fsencode(fnmatch.translate(os.fsdecode(pattern)))).
 
    * fnmatch.translate / re are the standard library, not code of the
      repository: the glob LANGUAGE is modelled directly ([glob_parse] into
@@ -20,8 +20,14 @@
      range, a range whose ends are reversed is dropped with both of its ends,
      an expression left empty never matches, one left with just '!' matches any
      byte, and what is left starting with '!' is negated.
-     Domain: patterns that are valid UTF-8 with ASCII-only bracket expressions
-     (the translation works on code points, the matching on bytes).
+     Domain: any pattern bytes (since commit 5529d3b the pattern is converted
+     with os.fsdecode / os.fsencode: a byte that is not part of a valid UTF-8
+     sequence is one code point U+DC80+b and comes back as that byte) whose
+     bracket expressions hold ASCII and such LONE bytes only: for them code
+     point order = byte order, so the bytewise reading below is exact.  A valid
+     multi-byte sequence inside brackets is outside the domain (the
+     translation orders and drops range ends by code point, the compiled
+     regex matches bytes).
    * os.path.abspath / relpath are not modelled: for a node reached from the
      top directory through the names n1 .. nk (none of them "." or "..", which
      scandir never lists) the relative path is n1/../nk when the root path
